@@ -24,9 +24,9 @@ MANIFEST = dict(
     text=("Deductive proof on the real Vector/Point methods with symbolic real components: +, -, scalar * from both sides, unary -, dot, cross, Vector(P1,P2), the constructor forms, "
           "Point.pv/move/indexing return exactly the textbook component formulas as new objects and leave their operands unchanged; a.(a x b)=0, anticommutativity and Lagrange's identity are "
           "proved through the real cross/dot code; length satisfies r>=0, r^2=v.v; normalized returns k*v with k>0 and unit length and raises on the zero vector; "
-          "angle's acos argument lies in [-1,1] (Cauchy-Schwarz) so the result is in [0,pi]. All are for every real input, no bound."),
+          "angle's acos argument lies in [-1,1] (Cauchy-Schwarz) so the result is in [0,pi]; zero(), the unit vectors, origin(), the axes and coordinate planes return fresh objects that are what their names say even after earlier results were mutated or moved. All are for every real input, no bound."),
     note=("Real arithmetic (A1): float rounding in length/normalized/angle is not modelled. Type preservation/promotion (int, Fraction, Decimal, float, user ring type) is a finite "
-          "statement about type tags; it is checked natively for every tag combination with sampled values (labelled bounded stand-in, not counted as proved)."),
+          "statement about type tags; it is checked natively for every tag combination with sampled values and every constructor form (three coordinates, one sequence, two Points - also Points whose coordinates were assigned one by one) (labelled bounded stand-in, not counted as proved)."),
     design_ref="DESIGN.md section 9 (C18)",
 )
 EXPLANATION = "All component formulas are straight-line code: one path each, polynomial identities discharged by z3."
